@@ -95,8 +95,10 @@ for _pid in ("C03", "C14", "C06"):
 # element-wise formulas of the source = the model's definitions (Properties/Formulas.lean over the regenerated Gen/Formulas.lean)
 FORMULAS = {
     "C14": ["Gen.overprod_is_code"],
-    "C02": ["Gen.overprod_is_code", "Gen.capacity_is_code", "Gen.capNegative_is_code", "Gen.xOpt_is_code"],
-    "C03": ["Gen.xOpt_is_code", "Gen.capacity_is_code"],
+    "C02": ["Gen.overprod_is_code", "Gen.capacity_is_code", "Gen.capNegative_is_code", "Gen.xOpt_is_code", "Gen.cons_is_code",
+            "Gen.production_max_is_code"],
+    "C03": ["Gen.xOpt_is_code", "Gen.capacity_is_code", "Gen.cons_is_code", "Gen.cons_base_is_code", "Gen.production_max_is_code"],
+    "C18": ["Gen.cons_is_code", "Gen.cons_base_is_code"],
     "C07": ["Gen.capacity_is_code"],
     "C09": ["Gen.linear_is_code", "Gen.convexe_is_code", "Gen.convexe_scaled_is_code", "Gen.cellwise_linear_is_code",
             "Gen.cellwise_convexe_is_code", "Gen.cellwise_convexe_scaled_is_code"],
@@ -182,6 +184,7 @@ for _pid in REPORTED:
 GEN = {"C16": True, "C17": True, "C02": True, "C14": True, "C04": True, "C11": True, "C05": True, "C19": True, "C01": True, "C10": True,
        "C03": True, "C07": True, "C09": True, "C20": True}
 GEN.update({_pid: True for _pid in REPORTED})
+GEN.update({_pid: True for _pid in FORMULAS})
 
 NONTRIVIAL = {
     "C12": ("weights", "non-uniform weights or an invalid input"),
